@@ -158,6 +158,55 @@ fn c13_from_errors_n17() {
     c13_from_errors_body::<17>(FROM_ERRORS_SAFE_LIMIT);
 }
 
+/// The full 16-element (unrolled) chunk path with three fully symbolic residuals (first, middle,
+/// last position) and thirteen small ones, followed by a partial chunk: same exactness statement.
+fn c13_from_errors_sparse_body<const N: usize>() {
+    let big: [u32; 3] = kani::any();
+    let small: [u8; N] = kani::any();
+    let mut e = [0u32; N];
+    let mut i = 0;
+    while i < N {
+        e[i] = small[i] as u32;
+        i += 1;
+    }
+    kani::assume(big[0] <= FROM_ERRORS_SAFE_LIMIT && big[1] <= FROM_ERRORS_SAFE_LIMIT && big[2] <= FROM_ERRORS_SAFE_LIMIT);
+    e[0] = big[0];
+    e[7] = big[1];
+    e[15] = big[2];
+    let t = PrcBitTable::from_errors(&e, 4);
+    let mut p = 0;
+    while p < 15 {
+        let mut exact: u64 = 4 + (N as u64) * (p as u64 + 1);
+        let mut i = 0;
+        while i < N {
+            exact += (e[i] >> p) as u64;
+            i += 1;
+        }
+        if exact < MAX_P_TO_BITS as u64 {
+            assert!(t.p_to_bits[p] as u64 == exact);
+        } else {
+            assert!(t.p_to_bits[p] == MAX_P_TO_BITS);
+        }
+        p += 1;
+    }
+    kani::cover!(big[0] >= (1 << 27) && big[2] >= (1 << 27));
+    kani::cover!(t.p_to_bits[0] == MAX_P_TO_BITS && t.p_to_bits[14] < MAX_P_TO_BITS);
+}
+
+//@ unit props=C13 tier=quick kind=bounded timeout=1500 funcs="PrcBitTable::from_errors" bound="16 residuals (exactly one full unrolled chunk): positions 0, 7, 15 any value up to 2^28 - 2^24 - 1, the others any value below 256"
+#[kani::proof]
+#[kani::unwind(19)]
+fn c13_from_errors_n16_sparse() {
+    c13_from_errors_sparse_body::<16>();
+}
+
+//@ unit props=C13 tier=thorough kind=bounded timeout=1500 funcs="PrcBitTable::from_errors" bound="18 residuals (one full unrolled chunk + a partial one): positions 0, 7, 15 any value up to 2^28 - 2^24 - 1, the others below 256"
+#[kani::proof]
+#[kani::unwind(21)]
+fn c13_from_errors_n18_sparse() {
+    c13_from_errors_sparse_body::<18>();
+}
+
 /// Witness unit of known finding F-C13-from-errors-wrap: without the bound on the folded
 /// residuals the u32 lane sums wrap before the per-chunk clamp and a very expensive parameter
 /// looks cheap.  Expected to FAIL on the unchanged tree (prints KNOWN-FINDING).
